@@ -101,7 +101,7 @@ type Store struct {
 	History   []Event
 	compactRV int64
 	uidCount  map[string]int
-	applied   map[objKey]map[string]Object // SSA: last applied config per manager
+	applied   map[objKey]map[string]Object    // SSA: last applied config per manager
 	Defaulter func(res *Resource, obj Object) // optional admission defaulting on create
 	Step      int                             // current kernel step (stamped on events)
 	clock     int64                           // server clock, seconds; monotone
@@ -765,11 +765,37 @@ func (s *Store) Apply(r *Resource, ns, name, manager string, body Object, actor 
 		return created, nil
 	}
 	n := deepCopy(cur.obj)
-	if prev := s.applied[k][manager]; prev != nil {
+	// metadata.ownerReferences is a list-map keyed by uid in the real schema:
+	// applying it upserts the manager's entries and leaves other owners alone.
+	curRefs := getList(n, "metadata", "ownerReferences")
+	prev := s.applied[k][manager]
+	if prev != nil {
 		removeApplied(n, prev, cfg)
 	}
 	keepStatus := n["status"]
 	mergeApplied(n, deepCopy(cfg))
+	newRefs := getList(cfg, "metadata", "ownerReferences")
+	if len(curRefs) > 0 || len(newRefs) > 0 {
+		applied := map[string]bool{}
+		for _, r := range newRefs {
+			applied[getStr(r, "uid")] = true
+		}
+		dropped := map[string]bool{}
+		for _, r := range getList(prev, "metadata", "ownerReferences") {
+			if u := getStr(r, "uid"); !applied[u] {
+				dropped[u] = true
+			}
+		}
+		var merged []interface{}
+		for _, r := range curRefs {
+			u := getStr(r, "uid")
+			if !applied[u] && !dropped[u] {
+				merged = append(merged, r)
+			}
+		}
+		merged = append(merged, newRefs...)
+		setPath(n, merged, "metadata", "ownerReferences")
+	}
 	if r.Status {
 		if keepStatus != nil {
 			n["status"] = keepStatus
